@@ -66,3 +66,32 @@ def check_c12(io, time_budget=120):
         want = M.kdf_derive(d["len"], int(d["id"]), _b(d["ctx"]), _b(d["key"]))
         return (d["out"] == want.hex(), want.hex())
     return _run(io, {"kdf": h}, time_budget, "C12")
+
+
+def check_c05(io, time_budget=120):
+    cov = {}
+
+    def x(d):
+        want = M.x25519(_b(d["n"]), _b(d["p"]))
+        side = M.mont_classify(_b(d["p"]))
+        cov.setdefault("x25519_point_side", {}).setdefault(side, 0)
+        cov["x25519_point_side"][side] += 1
+        if d.get("libsodium_rc") == -1 and want != b"\0" * 32:
+            raise RuntimeError("libsodium refused a point whose X25519 value is not zero")
+        return (d["out"] == want.hex(), want.hex())
+
+    def xb(d):
+        want = M.x25519_base(_b(d["n"]))
+        return (d["out"] == want.hex(), want.hex())
+
+    def bn(d):
+        want = M.box_beforenm(_b(d["pk"]), _b(d["sk"]))
+        return (d["out"] == want.hex(), want.hex())
+
+    def kx(d):
+        shared = M.x25519(_b(d["csk"]), _b(d["spk"]))
+        rx, tx = M.kx_keys(shared, _b(d["cpk"]), _b(d["spk"]))
+        return (d["client_rx"] == rx.hex() and d["client_tx"] == tx.hex(), (rx + tx).hex())
+    res = _run(io, {"x25519": x, "x25519_base": xb, "beforenm": bn, "kx": kx}, time_budget, "C05")
+    res["cov"] = cov
+    return res
